@@ -3,9 +3,11 @@ package main
 // C18: helpers shared by the components `startup`, `shutdown` and `closeproto`.
 
 import (
+	"context"
 	"fmt"
 	"net"
 	"os"
+	"os/exec"
 	"sort"
 	"strconv"
 	"strings"
@@ -173,4 +175,36 @@ func c18List(s string) []string {
 		return nil
 	}
 	return strings.Split(s, ",")
+}
+
+// c18UpstreamCrashes: a fatal runtime error (e.g. the stack overflow of a Close that calls itself) cannot be
+// recovered and would take the whole harness down without naming a case. So, once per process and
+// upstream kind, one exchange + Close of that kind is tried in a child process first; if the child dies,
+// every case that would close such an upstream reports `panic` instead of running it.
+var (
+	c18canaryMu sync.Mutex
+	c18canary   = map[string]bool{}
+)
+
+func c18UpstreamCrashes(kind string) bool {
+	if os.Getenv("C18_CANARY") != "" {
+		return false
+	}
+	c18canaryMu.Lock()
+	defer c18canaryMu.Unlock()
+	if v, ok := c18canary[kind]; ok {
+		return v
+	}
+	ctx, cancel := context.WithTimeout(context.Background(), 60*time.Second)
+	defer cancel()
+	cmd := exec.CommandContext(ctx, os.Args[0], "replay", "closeproto")
+	cmd.Env = append(os.Environ(), "C18_CANARY=1")
+	cmd.Stdin = strings.NewReader("k=" + c18UpModelKind[kind] + " auto=1 up=" + kind + " ops=s1,r1,C\n")
+	err := cmd.Run()
+	crashed := err != nil && ctx.Err() == nil
+	if crashed {
+		fmt.Fprintf(os.Stderr, "c18: closing a %s upstream kills the process: %v\n", kind, err)
+	}
+	c18canary[kind] = crashed
+	return crashed
 }
